@@ -204,6 +204,8 @@ def crash_run(spec):
     def fn():
         os.close(er)
         ctx = {'backend': backend, 'root': root}
+        import random
+        random.seed(7)
         lib().fsg_reset_fds()
         lib().fsg_config(root.encode(), 0, -1, -1, -1, 0, 0)      # tracking of fds under root starts here
         h = None
@@ -277,7 +279,7 @@ def sched_run(spec):
         rr, rw = os.pipe()
         gr, gw = os.pipe()
 
-        def fn(a=a, rw=rw, gr=gr, rr=rr, gw=gw):
+        def fn(a=a, rw=rw, gr=gr, rr=rr, gw=gw, idx=idx):
             os.close(rr)
             os.close(gw)
             for other in actors:        # do not keep the other actors' pipes open
@@ -287,6 +289,8 @@ def sched_run(spec):
                     except OSError:
                         pass
             ctx = {'backend': backend, 'root': root}
+            import random
+            random.seed(1000 + idx)       # separate processes draw different temporary names
             lib().fsg_reset_fds()
             lib().fsg_config(root.encode(), 0, -1, -1, -1, 0, 0)
             h = None
@@ -336,7 +340,7 @@ def sched_run(spec):
         idx = order[choice]
         act = actors[idx]
         kind, path = act.pending
-        trace.append((tuple(order), choice, kind, path))
+        trace.append((tuple(order), choice, kind, path, current in enabled))
         os.write(act.go_w, b'g')
         act.steps += 1
         act.next_report()
